@@ -39,7 +39,7 @@ Skeletons == SubSeq(LongSkeletons, 1, LongN) \o
      <<"String", <<TX("s eq "), HA>>>>, <<"String", <<HA, TX(" eq concat(s, "), HB, TX(")")>>>>,
      \* literals in both argument positions, and a regular expression with an inline flag
      <<"String", <<TX("contains('hello world', "), HA, TX(")")>>>>, <<"String", <<TX("startswith("), HA, TX(", "), HB, TX(") or s eq 'k'")>>>>,
-     <<"Pattern", <<TX("matchesPattern(s, "), HA, TX(")")>>>>, <<"String", <<HA, TX(" eq substring(s, 2)")>>>>,
+     <<"Pattern", <<TX("matchesPattern(s, "), HA, TX(")")>>>>, <<"Integer", <<TX("b eq "), HA>>>>, <<"Integer", <<HA, TX(" ne b or b eq "), HB>>>>, <<"String", <<HA, TX(" eq substring(s, 2)")>>>>,
      <<"String", <<TX("not ("), HA, TX(" ne tolower(concat("), HB, TX(", s)))")>>>>, <<"Integer", <<HA, TX(" eq indexof(s, 'wi')")>>>>,
      <<"String", <<TX("2 eq indexof(s, "), HA, TX(")")>>>>, <<"String", <<TX("contains(s, "), HA, TX(")")>>>>, <<"String", <<TX("startswith(s, "), HA, TX(")")>>>>,
      <<"String", <<TX("endswith(s, "), HA, TX(") eq true")>>>>, <<"String", <<TX("concat(s, "), HA, TX(") eq "), HB>>>>,
